@@ -94,6 +94,30 @@ def end_to_end(chk, MX, n):
                     return
 
 
+def repeated_calls(chk, MX, n):
+    """asking for the distributions again (same solution, other output options) gives the same section properties"""
+    rng = chk.rng
+    for it in range(n):
+        ac, stations, names = rand_wing(rng, None)
+        w = ac["wings"]["w"]
+        w["sweep"], w["dihedral"] = rng.choice([20.0, 30.0]), 4.0
+        w["airfoil"] = [[s_, names[k % len(names)]] for k, s_ in enumerate(stations)]
+        sd = {"units": "English", "solver": {"type": "nonlinear"}, "scene": {"atmosphere": {"rho": 0.0023769}}}
+        try:
+            sc = gen.build_scene(MX, sd, [("a", ac, {"velocity": 80.0, "alpha": 3.0, "beta": 2.0}, {"flap": 3.0})])
+            d1 = json.loads(json.dumps(sc.distributions()["a"], default=common._jsonable))
+            sc.distributions(radians=False)
+            d3 = json.loads(json.dumps(sc.distributions()["a"], default=common._jsonable))
+        except Exception as e:
+            chk.count("repeated_calls_error=" + type(e).__name__)
+            continue
+        chk.case(dict(kind="repeated-distributions", it=it), nontrivial=True)
+        bad = api.compare(d1, d3, rtol=1e-12, atol=1e-14)
+        if bad:
+            chk.violation("repeated-distributions", dict(kind="blend", aircraft={k: v for k, v in ac.items() if k != "airfoils"}, differences=bad[:6]))
+            return
+
+
 def run(chk):
     MX = common.setup_env()
     chk.proofs(extra_trusted=["correspondence: Model/AirfoilBlend.v on binary64 vs WingSegment._get_control_point_coef (1e-13) and _airfoil_slices (exact), "
@@ -163,6 +187,7 @@ def run(chk):
             if seg._airfoils[0].name != list(ac2["airfoils"].keys())[0] or seg._num_airfoils != 1:
                 chk.violation("default-airfoil", dict(kind="blend", aircraft=ac2, used=seg._airfoils[0].name))
     end_to_end(chk, MX, chk.q(8, 60))
+    repeated_calls(chk, MX, chk.q(2, 10))
     failing, nfiles, errors = common.run_cases("C16", IMPORTS, [], cases)
     chk.cov["traces_validated_against_impl"] = len(cases)
     chk.cov["correspondence_cases"] = len(cases)
